@@ -27,8 +27,13 @@ CLASSES = ["Geometry", "WeightedGeometry", "ExtrudedGeometry", "PorousGeometry",
 
 
 # ----------------------------------------------------------------------------- data from ids
-def _weight_array(wid: int, shape) -> np.ndarray:
-    return np.random.default_rng(10_000 + wid).uniform(0.25, 1.75, size=tuple(shape))
+def _weight_array(wid: int, shape, dtype: str = "float64") -> np.ndarray:
+    a = np.random.default_rng(10_000 + wid).uniform(0.25, 1.75, size=tuple(shape))
+    if dtype == "float64":
+        return a
+    if dtype in ("float32", "float16"):
+        return a.astype(dtype)  # e.g. a depth or porosity map read from a float32 file
+    return (np.round(a * 100) + 30).astype(dtype)  # integer maps (depth in mm): 55..205, products wrap in uint8
 
 
 def _base_field(fid: int, base, tail, positive: bool, scale: float = 1.0) -> np.ndarray:
@@ -90,7 +95,7 @@ def _wval(w, spec, as_image_ok=True):
     nat = _native(spec)
     if w["kind"] == "scalar":
         return float(w["val"])
-    arr = _weight_array(w["id"], nat)
+    arr = _weight_array(w["id"], nat, w.get("dtype", "float64"))
     if w["kind"] == "array":
         return arr
     if w["kind"] == "image":
@@ -107,6 +112,11 @@ def build_geometry(spec: dict):
         kw["dimensions"] = [float(n) * v for n, v in zip(nat, spec["voxel_size"])]
     else:
         kw["voxel_size"] = [float(v) for v in spec["voxel_size"]]
+    if spec.get("int_sizes"):
+        # pixel or millimetre units given as Python ints
+        for key in ("dimensions", "voxel_size"):
+            if key in kw:
+                kw[key] = [int(v) for v in kw[key]]
     cls = spec["cls"]
     if cls == "Geometry":
         return darsia.Geometry(**kw)
@@ -142,7 +152,7 @@ def ref_volume_native(spec) -> np.ndarray:
         if key in spec and (key == "weight" and spec["cls"] != "Geometry"
                             or key == "depth" and spec["cls"] == "ExtrudedPorousGeometry"):
             w = spec[key]
-            vol = vol * (float(w["val"]) if w["kind"] == "scalar" else _weight_array(w["id"], nat))
+            vol = vol * (float(w["val"]) if w["kind"] == "scalar" else _weight_array(w["id"], nat, w.get("dtype", "float64")).astype(np.float64))
     return vol
 
 
@@ -280,7 +290,7 @@ class C03Engine(Engine):
                        "global RNG / tracemalloc perturbations applied between steps (environment plan)"]
     assumptions = ["clients interleave at call granularity (library is synchronous; no intra-call pre-emption)",
                    "seam names trusted: darsia.measure.integration.cv2, Geometry.integrate/normalize",
-                   "C03.V on the array-volume resize path is compared at 1e-5 relative (OpenCV INTER_AREA precision), "
+                   "C03.V (integer factors per axis, all paths) at 1e-11 relative, "
                    "history oracle C03.H at 1e-12 relative (same code both sides)"]
 
     def fixed_cases(self, tier):
@@ -328,8 +338,15 @@ class C03Engine(Engine):
 
         def w():
             k = rng.choice(["scalar", "array", "array"])
-            return {"kind": "scalar", "val": rng.choice([0.2, 0.5, 1.0, 3.0])} if k == "scalar" else \
-                {"kind": "array", "id": rng.randint(0, 999)}
+            if k == "scalar":
+                return {"kind": "scalar", "val": rng.choice([0.2, 0.5, 1.0, 3.0])}
+            out = {"kind": "array", "id": rng.randint(0, 999)}
+            if rng.random() < 0.3:
+                out["dtype"] = rng.choice(["float32", "float32", "uint8", "int64", "uint16", "float16"])
+            return out
+        if rng.random() < 0.12:
+            spec["voxel_size"] = [float(rng.choice([1, 1, 2, 3])) for _ in range(d)]
+            spec["int_sizes"] = True
         if rng.random() < 0.15:
             spec["nv_extra"] = [rng.randint(2, 4) for _ in range(rng.randint(1, 2))]
         if rng.random() < 0.3:
@@ -579,7 +596,9 @@ class C03Engine(Engine):
                     ref = ref_integral(spec, fb)
                     resized = vk == "array" and any(list(m) != list(spec["r"]) for m in mults)
                     # low-precision data are integrated in double precision (D26): no allowance for float16 / float32
-                    tol = (1e-5 if resized else 1e-11) * scale
+                    # integer factors are resized with exact numpy block operations (D21, D22, D33): no allowance for
+                    # OpenCV's single-precision area kernel either
+                    tol = 1e-11 * scale
                     if op["op"] == "normalize":
                         # the rescaled image keeps the dtype of the input image: float32 pixels carry 6e-8 relative error
                         tol = max(tol, (1e-5 if op.get("dtype") == "float32" else 1e-9) * scale)
